@@ -384,8 +384,68 @@ fn feature_types(r: &mut Rng, out: &mut Vec<String>) {
     bulk_probe("PointsF32", &pts, same_pts, out);
 }
 
+
+/// collections around the sizes at which readers and writers switch strategy (pre-allocation caps, 64 KiB, the
+/// crypto block): element types that are read one by one
+fn rt_only<T: Serialize + Deserialize + WithSchema + PartialEq>(name: &str, len: usize, x: &T, out: &mut Vec<String>) {
+    out.push(format!("#stat extras-long-{} 1", name));
+    let bytes = match save_bytes(x) {
+        Ok(b) => b,
+        Err(e) => {
+            out.push(format!("!C01 save-failed type={} len={} got={}", name, len, e));
+            return;
+        }
+    };
+    match std::panic::catch_unwind(|| load_bytes::<T>(&bytes)) {
+        Ok(Ok(y)) => {
+            if y != *x {
+                out.push(format!("!C01 round-trip-changes-value type={} len={}", name, len));
+            }
+        }
+        Ok(Err(e)) => out.push(format!("!C01 saved-file-does-not-load type={} len={} got={}", name, len, e)),
+        Err(_) => out.push(format!("!C01 load-panics type={} len={} got={}", name, len, panic_class(&last_panic()))),
+    }
+}
+
+fn long_collections(r: &mut Rng, out: &mut Vec<String>) {
+    for len in [1023usize, 1025, 4095, 4096, 4097, 8193, 65535, 65537, 100_003] {
+        let strings: Vec<String> = (0..len).map(|k| format!("{}", (k as u64).wrapping_mul(r.below(7) + 1) % 1000)).collect();
+        rt_only("Vec_String", len, &(strings.clone(), 0xdead_beefu32), out);
+        rt_only("BoxSlice_String", len, &(strings.clone().into_boxed_slice(), 7u8), out);
+        let opts: Vec<Option<u16>> = (0..len).map(|k| if k % 3 == 0 { None } else { Some(k as u16) }).collect();
+        rt_only("Vec_Opt_u16", len, &(opts.clone(), 1u8), out);
+        let arc: std::sync::Arc<[Option<u16>]> = opts.clone().into();
+        rt_only("ArcSlice_Opt_u16", len, &(arc, 2u8), out);
+        let us: Vec<usize> = (0..len).map(|k| k ^ 0x55).collect();
+        rt_only("Vec_usize", len, &(us, 3u16), out);
+        let dq: std::collections::VecDeque<String> = strings.iter().cloned().collect();
+        rt_only("VecDeque_String", len, &(dq, 4u8), out);
+        let tup: Vec<(u8, String)> = strings.iter().enumerate().map(|(k, s)| (k as u8, s.clone())).collect();
+        rt_only("Vec_Tup_u8_String", len, &tup, out);
+        if len <= 8193 {
+            let bm: std::collections::BTreeMap<u32, String> = strings.iter().enumerate().map(|(k, s)| (k as u32, s.clone())).collect();
+            rt_only("BTreeMap_u32_String", len, &(bm, 5u8), out);
+            let hs: std::collections::HashSet<String> = (0..len).map(|k| format!("k{}", k)).collect();
+            rt_only("HashSet_String", len, &(hs, 6u8), out);
+            let hm: std::collections::HashMap<u16, Option<u8>> = (0..len.min(60000)).map(|k| (k as u16, Some(k as u8))).collect();
+            rt_only("HashMap_u16_Opt_u8", len, &(hm, 7u8), out);
+            let bh: std::collections::BinaryHeap<u32> = (0..len as u32).collect();
+            let v1: Vec<u32> = bh.clone().into_sorted_vec();
+            match save_bytes(&bh).and_then(|b| load_bytes::<std::collections::BinaryHeap<u32>>(&b)) {
+                Ok(y) => {
+                    if y.into_sorted_vec() != v1 {
+                        out.push(format!("!C01 round-trip-changes-value type=BinaryHeap_u32 len={}", len));
+                    }
+                }
+                Err(e) => out.push(format!("!C01 saved-file-does-not-load type=BinaryHeap_u32 len={} got={}", len, e)),
+            }
+        }
+    }
+}
+
 pub fn cases(r: &mut Rng, n: usize) -> Vec<String> {
     let mut out = Vec::new();
+    long_collections(r, &mut out);
     for i in 0..n {
         feature_types(r, &mut out);
         recursive_types(r, &mut out);
